@@ -20,8 +20,11 @@ LEVEL = ('decides code-shape clauses of the FlatZinc front-end: no index is used
          'decided on small windows); nothing is selected from one side before two parallel sequences '
          'are zipped (F11). the arithmetic builders the builtins map to mean what they say (F12 = '
          "C09-R10) and the ten Boolean builtins post constraints with the builtin's truth table (F13 "
-         'BOOLFORM). Does not decide the meaning of each decomposition, search annotations or output '
-         'projection')
+         'BOOLFORM). Also runs the KERNEL BUNDLE (rule ids …K<n>): the kernel rules every verdict '
+         'depends on — predicate algebra, nogood watchers, minimisers, conflict-analysis tables, '
+         'nogood deletion, decision read-back, no-learning resolver, constraint builders, reified '
+         'reasons — wherever they are not already registered here under another id. Does not decide '
+         'the meaning of each decomposition, search annotations or output projection')
 TECHNIQUE = "static analysis: table recovery from the name match, stale-index / cast / arity / divisor-guard rules over rustc MIR"
 
 WIDTH = {"i8": 8, "u8": 8, "i16": 16, "u16": 16, "i32": 32, "u32": 32, "i64": 64, "u64": 64,
@@ -589,3 +592,5 @@ def run(ctx, led):
     run_rule(led, "F16", "SIBLINGS: alias merging uses the same argument order for Booleans and integers", f16, ctx)
     from . import C07 as _C07d
     run_rule(led, "F17", "an equality decision is read back as written (no-learning resolver under `--conflict-resolver no-learning`; shared with C07-J5)", _C07d.j5, ctx)
+    from . import kernel as _kernel
+    _kernel.run_bundle(led, ctx, "F")
